@@ -10,7 +10,17 @@ specfun("wf_maps", ["b", "h", "r"], "nz(b, h, r) and vh(b, h)")
 specfun("wf_account", ["a"], "wf_maps(a.balances, a.holds, a.borrowed)")
 specfun("rules_ok", ["a"],
         "seq_len(a._update_rules) >= 2 and typeis(seq_at(a._update_rules, 0), 'NonZero') "
-        "and typeis(seq_at(a._update_rules, 1), 'ValidHold')")
+        "and typeis(seq_at(a._update_rules, 1), 'ValidHold') "
+        "and forall(lambda i=Int: implies(0 <= i and i < seq_len(a._update_rules), same_object(seq_at(a._update_rules, i).account, a) and rule_wf(seq_at(a._update_rules, i))))")
+# class invariants of the rule classes (established when the rule is created / pushed)
+specfun("rule_wf", ["r"], "implies(typeis(r, 'CheckMarginLevel'), not_none(r._margin_loans._exchange_ctx) and not_none(r._margin_loans._loan_mgr) "
+                          "and same_object(r._margin_loans._exchange_ctx.account_balances, r.account) and ml_wf(r._margin_loans) "
+                          "and prices_wf(r._margin_loans._exchange_ctx.prices))")
+# a candidate that leaves balances and borrowed as they are and only lowers holds (never below zero): what closing an
+# order asks for.  Statement-derived (C06: "released in full when the order closes for any reason"): no rule may reject it.
+specfun("release_only", ["a", "b", "h", "r"],
+        "same_content(b, a.balances) and same_content(r, a.borrowed) "
+        "and forall(lambda s=Str: at(h, s) >= 0 and at(h, s) <= at(a.holds, s))")
 
 RULE_TYPES = {"updated_balances": "Dict[Str,Real]", "updated_holds": "Dict[Str,Real]", "updated_borrowed": "Dict[Str,Real]"}
 
@@ -19,9 +29,11 @@ RULE_TYPES = {"updated_balances": "Dict[Str,Real]", "updated_holds": "Dict[Str,R
 contract(AB + "UpdateRule.check", props=P, abstract=True, types=RULE_TYPES, modifies=[],
          ensures=[("nonzero", "implies(typeis(self, 'NonZero'), nz(updated_balances, updated_holds, updated_borrowed))"),
                   ("validhold", "implies(typeis(self, 'ValidHold'), vh(updated_balances, updated_holds))")],
-         raises={"Error": []})
+         requires=[("account", "wf_account(self.account)"), ("rule", "rule_wf(self)")],
+         raises={"Error": [("not_a_release", "not release_only(self.account, updated_balances, updated_holds, updated_borrowed)")]})
 
 contract(AB + "NonZero.check", props=P, types=RULE_TYPES, modifies=[],
+         requires=[("account", "wf_account(self.account)")],
          ensures=[("accepts", "nz(updated_balances, updated_holds, updated_borrowed)")],
          raises={"NotEnoughBalance!": [("witness", "exists(lambda s=Str: at(updated_balances, s) < 0)")],
                  "Error!": [("witness", "exists(lambda s=Str: at(updated_holds, s) < 0 or at(updated_borrowed, s) < 0)")]},
@@ -30,6 +42,7 @@ contract(AB + "NonZero.check", props=P, types=RULE_TYPES, modifies=[],
                 2: dict(invariant=[("seen", "forall(lambda s=Str: implies(s in SEEN, at(updated_borrowed, s) >= 0))")])})
 
 contract(AB + "ValidHold.check", props=P, types=RULE_TYPES, modifies=[],
+         requires=[("account", "wf_account(self.account)")],
          ensures=[("accepts", "vh(updated_balances, updated_holds)")],
          raises={"NotEnoughBalance!": [("witness", "exists(lambda s=Str: at(updated_holds, s) > at(updated_balances, s))")]},
          loops={0: dict(invariant=[("seen", "forall(lambda s=Str: implies(s in SEEN, at(updated_holds, s) <= at(updated_balances, s)))"),
@@ -40,24 +53,31 @@ contract(AB + "AccountBalances.__init__", props=P, types={"initial_balances": "D
                   ("balances", "forall(lambda s=Str: at(self.balances, s) == (at(initial_balances, s) if at(initial_balances, s) >= 0 else 0))"),
                   ("borrowed", "forall(lambda s=Str: at(self.borrowed, s) == (-at(initial_balances, s) if at(initial_balances, s) < 0 else 0))"),
                   ("holds", "forall(lambda s=Str: at(self.holds, s) == 0)")],
-         modifies=["self"])
+         modifies=["self"],
+         ghost_exit=[("seq_at(self._update_rules, 0).account", "self"), ("seq_at(self._update_rules, 1).account", "self")])
 
 contract(AB + "AccountBalances.push_update_rule", props=P,
-         requires=[("rules", "rules_ok(self)")],
+         requires=[("rules", "rules_ok(self)"), ("rule", "implies(typeis(update_rule, 'CheckMarginLevel'), not_none(update_rule._margin_loans._exchange_ctx) "
+                                                         "and not_none(update_rule._margin_loans._loan_mgr) and same_object(update_rule._margin_loans._exchange_ctx.account_balances, self) "
+                                                         "and ml_wf(update_rule._margin_loans) and prices_wf(update_rule._margin_loans._exchange_ctx.prices))")],
          ensures=[("rules", "rules_ok(self)"),
                   ("append", "seq_len(self._update_rules) == old(seq_len(self._update_rules)) + 1 "
                              "and same_object(seq_at(self._update_rules, old(seq_len(self._update_rules))), update_rule)")],
-         modifies=["content(self._update_rules)"])
+         modifies=["content(self._update_rules)", "update_rule.account"],
+         ghost_exit=[("update_rule.account", "self")])
 
 UPD_TYPES = {"balance_updates": "Dict[Str,Real]", "hold_updates": "Dict[Str,Real]", "borrowed_updates": "Dict[Str,Real]"}
 contract(AB + "AccountBalances.update", props=P, types=UPD_TYPES,
-         requires=[("rules", "rules_ok(self)")],
+         requires=[("rules", "rules_ok(self)"), ("wf", "wf_account(self)")],
          ensures=[("balances", "forall(lambda s=Str: at(self.balances, s) == old(at(self.balances, s)) + at(balance_updates, s))"),
                   ("holds", "forall(lambda s=Str: at(self.holds, s) == old(at(self.holds, s)) + at(hold_updates, s))"),
                   ("borrowed", "forall(lambda s=Str: at(self.borrowed, s) == old(at(self.borrowed, s)) + at(borrowed_updates, s))"),
                   ("wf", "wf_account(self)"),
                   ("fresh_maps", "fresh(self.balances) and fresh(self.holds) and fresh(self.borrowed)")],
-         raises={"Error": [("all_or_nothing", "unchanged(self)")]},
+         raises={"Error": [("all_or_nothing", "unchanged(self)"),
+                           # never raised for an update that only releases holds (C06)
+                           ("not_a_release", "not (forall(lambda s=Str: not (s in balance_updates) and not (s in borrowed_updates)) "
+                                             "and forall(lambda s=Str: at(hold_updates, s) <= 0 and at(self.holds, s) + at(hold_updates, s) >= 0))")]},
          modifies=["self.balances", "self.holds", "self.borrowed"],
          loops={0: dict(invariant=[("nz", "implies(IDX >= 1, nz(updated_balances, updated_holds, updated_borrowed))"),
                                    ("vh", "implies(IDX >= 2, vh(updated_balances, updated_holds))")])})
